@@ -17,7 +17,11 @@ def run_traced(script, variant="fast", timeout=10.0):
         recs = []
         aux = []
         with open(path, errors="replace") as f:
+            nread = 0
             for line in f:
+                nread += len(line)
+                if nread > 6_000_000:   # run-away searches (known lookahead loop) write tens of MB; the head is enough
+                    break
                 line = line.rstrip("\n")
                 if not line:
                     continue
